@@ -113,6 +113,11 @@ def gen(rng, tier):
             for login, key in ((None, None), ("L", None), (None, "K"), ("L", "K")):
                 yield "svc agg %s %s %s %s" % (hx(p.uri()), hx(login), hx(key), p.spec())
                 yield "async sign %s %s %s %s" % (hx(p.uri()), hx(login), hx(key), p.spec())
+    # --- the service set twice on one context: every ordered pair of schemes; what was set last decides the transport
+    for a in ("ksi", "ksi+http", "https", "http", "ksi+tcp", "file", "ftp", "KSI+TCP"):
+        for b in ("ksi", "ksi+http", "https", "http", "ksi+tcp", "file", "ftp", "Http"):
+            pa, pb = rparts(rng, a), rparts(rng, b)
+            yield "svc2 %s %s %s %s %s" % (rng.choice(["agg", "ext"]), hx(pa.uri()), hx(pb.uri()), hx("L"), hx("K"))
     # --- random well-formed URIs
     for _ in range(1500 if not big else 30000):
         p = rparts(rng, rng.choice(list(cases(rng.choice(SCHEMES)))))
